@@ -95,6 +95,63 @@ def spec_blocks(M, blocks, c):
     return bad
 
 
+def op_sequence(rng, it, M):
+    """Operation sequence on ONE iterator object: next() steps interleaved, at arbitrary points
+    (before the first step, between steps, after the last), with the random accesses the public
+    API offers: get_chunk(a, b), get_batch(rows), iterator[i], iterator[[a, ..., b]].
+    Returns (blocks yielded by the iteration, accesses, notes); an access is
+    (position = number of next() calls made before it, text, got, want)."""
+    n = M.shape[0]
+    blocks, acc, notes = [], [], []
+    p_access = rng.choice([0.25, 0.5, 0.75])
+
+    def access():
+        kind = rng.choice(['get_chunk', 'get_chunk', 'get_batch', 'item', 'item_list'])
+        pos = len(blocks)
+        if kind == 'get_chunk':
+            a = rng.randrange(0, n)
+            b = rng.randrange(a + 1, n + 1)
+            ch = it.get_chunk(a, b)
+            acc.append((pos, f'get_chunk({a},{b})', (np.asarray(ch[0]), int(ch[1]), int(ch[2])), (M[a:b, :], a, b)))
+        elif kind == 'get_batch':
+            rows = rng.sample(range(n), rng.randrange(1, n + 1))
+            sparse = rng.random() < 0.25
+            b = it.get_batch(list(rows), sparse=sparse)
+            if sparse:
+                b = b.toarray()
+            acc.append((pos, f'get_batch({rows})', (np.asarray(b), None, None), (M[rows, :], None, None)))
+        elif kind == 'item':
+            a = rng.randrange(0, n)
+            ch = it[a]
+            acc.append((pos, f'iterator[{a}]', (np.asarray(ch[0]), int(ch[1]), int(ch[2])), (M[a:a + 1, :], a, a + 1)))
+        else:
+            a = rng.randrange(0, n)
+            b = rng.randrange(a + 1, n + 1)
+            ch = it[list(range(a, b))]
+            acc.append((pos, f'iterator[[{a}..{b - 1}]]', (np.asarray(ch[0]), int(ch[1]), int(ch[2])), (M[a:b, :], a, b)))
+
+    exhausted = False
+    while not exhausted:
+        while rng.random() < p_access and len(acc) < 40:
+            access()
+        try:
+            chunk, r0, r1 = next(it)
+            blocks.append((int(r0), int(r1), np.asarray(chunk)))
+        except StopIteration:
+            exhausted = True
+        if len(blocks) > 10000:
+            raise RuntimeError('iterator does not terminate')
+    # after the last chunk: random accesses must not revive the iteration
+    for _ in range(rng.randrange(1, 4)):
+        access()
+    try:
+        chunk, r0, r1 = next(it)
+        notes.append(f'next() after StopIteration and {acc[-1][1]} yielded rows {int(r0)}:{int(r1)} again')
+    except StopIteration:
+        pass
+    return blocks, acc, notes
+
+
 def err_code(kind, e):
     """Exception -> model error enum.  CSR route: numpy IndexError = 1.  Dense route:
     h5py refuses the point selection (TypeError / IndexError / OSError) = 2."""
@@ -218,6 +275,28 @@ def iterator_cases(ctx):
             desc = dict(base)
             desc['chunk_size'] = c
             pending.append((desc, enc, M, obs, mcases, traces, budgets))
+        # operation sequence on one further iterator object (chunk size: one of the above, so that
+        # the model of that pure iteration is also the model of the interleaved one)
+        multi = [k_ for k_, c_ in enumerate(sizes) if c_ < n]
+        if any(n <= 64 * sizes[k_] for k_ in multi) and rng.random() < 0.8:
+            multi = [k_ for k_ in multi if n <= 64 * sizes[k_]]      # mostly sequences of at most 64 steps
+        k_seq = rng.choice(multi) if multi and rng.random() < 0.85 else rng.randrange(len(sizes))
+        obs = pending[len(pending) - len(sizes) + k_seq][3]
+        if obs['ok']:
+            seed = rng.getrandbits(48)
+            try:
+                with S.quiet():
+                    it = AnnDataRowIterator(path, row_chunk_size=sizes[k_seq], layer=layer or 'X', tmp_dir=str(tmp),
+                                            max_gb=gb, keep_open=rng.random() < 0.7)
+                    S.take_traces()
+                    import random as _random
+                    blocks, acc, notes = op_sequence(_random.Random(seed), it, M)
+                    del it
+                obs['seq'] = {'ok': True, 'blocks': blocks, 'accesses': acc, 'notes': notes, 'seed': seed}
+            except Exception as e:
+                S.take_traces()
+                obs['seq'] = {'ok': False, 'exc': exc_class(e), 'msg': str(e)[:200], 'seed': seed}
+                it = None
         left = sorted(p.name for p in tmp.iterdir())
         if left:
             # the CSC scratch copy is removed by __del__ of the iterator
@@ -267,6 +346,32 @@ def judge_iteration(ctx, desc, enc, M, obs, mcases, res, traces, budgets):
         r0, r1, b, o0, o1 = obs['get_chunk']
         if (o0, o1) != (r0, r1) or not S.same_bits(b, M[r0:r1, :]):
             spec.append(f'get_chunk({r0},{r1}) differs from the matrix rows')
+        seq = obs.get('seq')
+        if seq is not None:
+            if not seq['ok']:
+                ctx.dist('operation_sequence', 'raised')
+            else:
+                mid = sum(1 for a in seq['accesses'] if 0 < a[0] < len(seq['blocks']))
+                ctx.dist('operation_sequence', 'random accesses between two next() steps: '
+                         + ('0' if mid == 0 else '1-2' if mid <= 2 else '3+'))
+            desc['sequence_seed'] = seq['seed']
+            if not seq['ok']:
+                spec.append(f'operation sequence on one iterator raised {seq["exc"]}: {seq["msg"]}')
+                klass = 'iterator:sequence-' + seq['exc']
+            else:
+                desc['sequence'] = [f'after {a[0]} next(): {a[1]}' for a in seq['accesses']]
+                bad = spec_blocks(M, seq['blocks'], c) + seq['notes']
+                if bad:
+                    spec.append('iteration interleaved with random accesses on the same iterator object: ' + bad[0]
+                                + f'; chunks yielded {[[b_[0], b_[1]] for b_ in seq["blocks"]][:12]}')
+                    klass = 'iterator:random-access-moves-iteration'
+                for pos, text, got_a, want_a in seq['accesses']:
+                    if (got_a[1], got_a[2]) != (want_a[1], want_a[2]) or not S.same_bits(got_a[0], want_a[0]):
+                        spec.append(f'{text} after {pos} next() calls differs from the matrix rows')
+                        break
+                got_s = [[r0_, r1_, S.code_dense(b_)] for r0_, r1_, b_ in seq['blocks']]
+                if r_iter != [0, got_s]:
+                    corr.append(f'interleaved iteration: model {str(r_iter)[:300]} impl {str(got_s)[:300]}')
         j = 1
         if enc == 'csc':
             # loop bounds of the conversion against the model of the transposition
@@ -392,7 +497,12 @@ def run(ctx):
                 'HDF5 layouts (anndata default, contiguous, 1/2/5/64-element chunks) x row chunk sizes {1, random in '
                 '1..n+2, n..n+2} x max_gb from the enforced minima upward x keep_open; per iterator: all chunks, one '
                 'get_chunk, get_batch on a permutation, three sub-lists, a single row (dense and sparse=True results) '
-                'and on four lists outside the quantifier (duplicate, out of range, empty); inner functions load_csr, '
+                'and on four lists outside the quantifier (duplicate, out of range, empty); per file one OPERATION '
+                'SEQUENCE on one further iterator object: next() steps interleaved at arbitrary points (before the '
+                'first, between two, after the last) with up to 40 random accesses get_chunk(a,b) / get_batch(rows) / '
+                'iterator[i] / iterator[[a..b]]: the chunks must still chain from row 0 to n_rows (= the model of the '
+                'pure iteration), every access must return its rows, next() after the end must keep raising '
+                'StopIteration; inner functions load_csr, '
                 '_load_disjoint_csr, merge_csr, merge_index_list on arrays. non-trivial = at least 2 rows and 2 '
                 'stored values')
     ctx.assumptions += [
@@ -400,6 +510,7 @@ def run(ctx):
         'are outside the quantifier: the check only requires that they are refused (IndexError on the CSR route, an '
         'h5py TypeError/IndexError/OSError on the dense route) and never answered with wrong rows; negative row '
         'numbers are not generated',
+        'iterator[list] is driven with lists of consecutive ascending rows only (it returns rows list[0]..list[-1])',
         'no (row, column) pair is stored twice (scipy toarray would add such values, _csr_to_dense keeps the last)',
         'stored values are compared as exact bit patterns; -0.0 and NaN are not generated',
         'budgets beyond the number of stored entries are clamped to nnz+1 before entering the unary model',
